@@ -24,7 +24,7 @@ type C19Case struct {
 	Cmd   string   `json:"cmd"`
 	Arg   string   `json:"arg,omitempty"`
 	// Var: comma separated variant tokens: stale=v2|garbage|chain (a file already sits at the output
-	// path), list=messy (CID list shape), target=a|ab|empty|pad|v1 (append target), ver1, inverse.
+	// path), list=messy|nonl (CID list shape: messy = CRLF/padding/blank lines/a repeat; nonl = no newline after the last entry), target=a|ab|empty|pad|v1 (append target), ver1, inverse.
 	Var string `json:"var,omitempty"`
 	// IO: also run the stdout / stdin forms of the command and compare them with the file forms.
 	IO bool `json:"io,omitempty"`
@@ -694,6 +694,9 @@ func (e *c19Env) filter(arg string) {
 			sb.WriteString("\r\n \n\t")
 		}
 		list = []byte(sb.String())
+	}
+	if c19Var(cs.Var, "list") == "nonl" {
+		list = []byte(strings.Join(lines, "\n"))
 	}
 	os.WriteFile(e.path("cids.txt"), list, 0o644)
 	var flags []string
